@@ -533,6 +533,10 @@ def oracle(case, obs):
                 flag("wrong-item", "%s on stream %d returned %r which is not in its source at all" % (what, o, val))
             if tag in ("stop", "raised", "error"):
                 s["state"], s["why"] = "dead", "ended"
+            if tag == "item" and s["state"] != "dead":
+                s["state"] = "alive"                     # the daemon evidently still had it
+                if s["owner"] is None:                   # ... and this fetch adopted it
+                    s["owner"], s["linger_since"] = conn, None
             return
         if tag == "item":
             if n >= len(src) or src[n][0] != "y" or src[n][1] != val:
@@ -701,6 +705,12 @@ def oracle(case, obs):
         for o, s in enumerate(streams):
             if s is None:
                 continue
+            if s["state"] == "maybe":
+                # expiry exactly at the limit is either way by the property: go on from what the daemon did
+                if o in present:
+                    s["state"] = "alive"
+                else:
+                    s["state"], s["why"] = "dead", "expired exactly at the limit"
             if s["state"] == "dead" and o in present:
                 flag("stale-entry", "after step %d %r the server still holds stream %d (%s)" % (i, op, o, s["why"]))
             if s["state"] == "alive" and o not in present:
